@@ -103,6 +103,54 @@ excluded(const char* sig)
   return true;
 }
 
+// ---- domain audit: sub-domains of the statement reached by a case (one class count per case and sub-domain)
+enum CaseFlag
+{
+  CF_VIEW1 = 0,        // 1-D: a memory view was made
+  CF_VIEW1_WITHIN,     // 1-D: a view was resized / grown / reserved inside the viewed block (must still alias)
+  CF_VIEW1_BEYOND,     // 1-D: ... beyond the block (independent afterwards)
+  CF_VIEW1_REGROWN,    // 1-D: a view was emptied (resize to the empty range) and regrown inside the block (must alias again)
+  CF_VIEWN,            // N-D: a memory view was made
+  CF_VIEWN_HELD,       // N-D: a view had to survive an operation that is not a resize (own statement)
+  CF_VIEWN_MOVED,      // N-D: a view was moved / swapped into another object and had to survive
+  CF_ND_IRREGULAR,     // N-D: an array with an irregular range existed
+  CF_ND_EMPTY_ROW,     // N-D: ... with a zero-length row
+  CF_BIN_ONE_END,      // binary operation, ranges differ at exactly one end
+  CF_BIN_BOTH_ENDS,    // ... at both ends
+  CF_BIN_EMPTY,        // ... one operand empty
+  CF_SELF,             // assignment or binary operation with the object itself
+  CF_N
+};
+static const char* const case_flag_name[CF_N] = { "1-D view made",
+                                                  "1-D view resized inside the viewed block (must still alias)",
+                                                  "1-D view resized beyond the viewed block",
+                                                  "1-D view emptied, then regrown inside the viewed block (must alias again)",
+                                                  "N-D view made",
+                                                  "N-D view had to survive a non-resizing operation (own statement)",
+                                                  "N-D view moved or swapped to another object",
+                                                  "N-D array with irregular range",
+                                                  "N-D array with a zero-length row",
+                                                  "binary op: ranges differ at one end",
+                                                  "binary op: ranges differ at both ends",
+                                                  "binary op: one operand empty",
+                                                  "assignment / binary op with the object itself" };
+static bool g_case_flag[CF_N];
+inline void flag(CaseFlag f) { g_case_flag[f] = true; }
+inline void
+flag_ranges(bool e1, int mn1, int mx1, bool e2, int mn2, int mx2)
+{
+  if (e1 != e2)
+    flag(CF_BIN_EMPTY);
+  else if (!e1)
+    {
+      const int nd = (mn1 != mn2) + (mx1 != mx2);
+      if (nd == 1)
+        flag(CF_BIN_ONE_END);
+      else if (nd == 2)
+        flag(CF_BIN_BOTH_ENDS);
+    }
+}
+
 template <class T> T mk(int x) { return T(x); }
 template <class T> bool same(const T& a, const T& b) { return a == b; }
 template <> bool same<float>(const float& a, const float& b) { return a == b || (std::isnan(a) && std::isnan(b)); }
@@ -326,7 +374,7 @@ struct Interp1
             VF_CHECK(same(xx[mm.min], mk<T>(77)), after, " array does not show a write to the buffer");
             buf[std::ptrdiff_t(off)] = mm.v[0];
           }
-        else
+        else if (!mm.empty()) // an emptied view has no element to look at; it stays attached (see case 5)
           view_attached[s] = false;
       }
     return Result::pass();
@@ -402,6 +450,8 @@ struct Interp1
         break;
       }
       case 3: { // copy assign
+        if (s == t)
+          flag(CF_SELF);
         *o[s] = *o[t];
         m[s] = m[t];
         if (s != t)
@@ -423,7 +473,9 @@ struct Interp1
       case 5: { // resize
         int mn, mxi;
         decode_range(c, d, mn, mxi);
-        if (view_attached[s] && !(mn <= mxi && (mxi - mn + 1) <= int(x.capacity()) && fits_capacity(x, mn, mxi)))
+        // (domain audit) a resize to the EMPTY range is not a resize beyond the block: the view stays attached, and a later
+        // resize / grow that fits into the block must alias it again (the harness used to let go of the view here)
+        if (view_attached[s] && mn <= mxi && !fits(s, false, mn, mxi))
           view_attached[s] = false;
         x.resize(mn, mxi);
         mx_.resize(mn, mxi, zero_new);
@@ -439,7 +491,7 @@ struct Interp1
           }
         if (mn > mxi)
           break; // grow to an empty range on an empty vector: skip (grow(unsigned 0) wraps)
-        if (view_attached[s] && !fits_capacity(x, mn, mxi))
+        if (view_attached[s] && !fits(s, false, mn, mxi))
           view_attached[s] = false;
         x.grow(mn, mxi);
         mx_.resize(mn, mxi, zero_new);
@@ -450,7 +502,7 @@ struct Interp1
         decode_range(c, d, mn, mxi);
         if (mn > mxi)
           break; // reserving an empty range is not a meaningful request
-        if (view_attached[s] && !fits_capacity_union(x, mn, mxi))
+        if (view_attached[s] && !fits(s, true, mn, mxi))
           view_attached[s] = false;
         x.reserve(mn, mxi);
         break;
@@ -538,6 +590,9 @@ struct Interp1
         break;
       }
       case 14: { // binary arithmetic with slot t
+        if (s == t)
+          flag(CF_SELF);
+        flag_ranges(m[s].empty(), m[s].min, m[s].max(), m[t].empty(), m[t].min, m[t].max());
         Result r = binary(s, t, int(((c % 4) + 4) % 4), after);
         if (r.failed())
           return r;
@@ -659,7 +714,7 @@ struct Interp1
         const int which = int(((c % 3) + 3) % 3);
         if (which == 0)
           {
-            if (view_attached[s] && !(n > 0 && fits_capacity(x, 0, int(n) - 1)))
+            if (view_attached[s] && !(n > 0 && fits(s, false, 0, int(n) - 1)))
               view_attached[s] = false;
             x.resize(n);
             mx_.resize(0, int(n) - 1, zero_new);
@@ -668,7 +723,7 @@ struct Interp1
           { // documented precondition of grow(): the old range is a sub-interval of the new one (VectorWithOffset.h)
             if (!mx_.empty() && (mx_.min < 0 || mx_.max() > int(n) - 1))
               break;
-            if (view_attached[s] && !(n > 0 && fits_capacity(x, 0, int(n) - 1)))
+            if (view_attached[s] && !(n > 0 && fits(s, false, 0, int(n) - 1)))
               view_attached[s] = false;
             x.grow(n);
             mx_.resize(0, int(n) - 1, zero_new);
@@ -677,7 +732,7 @@ struct Interp1
           {
             if (n == 0)
               break;
-            if (view_attached[s] && !fits_capacity_union(x, 0, int(n) - 1))
+            if (view_attached[s] && !fits(s, true, 0, int(n) - 1))
               view_attached[s] = false;
             x.reserve(n);
           }
@@ -758,6 +813,33 @@ struct Interp1
 
   static bool all_defined(const M1<T>& mm) { return std::all_of(mm.def.begin(), mm.def.end(), [](char ch) { return ch != 0; }); }
 
+  // Domain audit: whether a resize stays inside the viewed block was decided from get_capacity_min/max_index() and capacity(),
+  // i.e. from the code under test.  Own statement: slot s views buf[0 .. buf_len) (make_view) and, while it is attached, its
+  // first element sits at buf[off] (its address is public); the block therefore offers the indices min-off .. min-off+buf_len-1,
+  // whatever the object reports.  The reported window is still compared (counter; they agree on the unchanged tree).
+  bool fits(int s, bool hull, int mn, int mxi)
+  {
+    const Vec& x = *o[s];
+    const M1<T>& mm = m[s];
+    bool own;
+    if (mm.empty())
+      {
+        own = (mxi - mn + 1) <= buf_len;
+        if (own)
+          flag(CF_VIEW1_REGROWN);
+      }
+    else
+      {
+        const std::ptrdiff_t off = &x[mm.min] - buf.get();
+        const int wmin = mm.min - int(off), wmax = wmin + buf_len - 1;
+        own = mn >= wmin && mxi <= wmax;
+      }
+    const bool code = hull ? fits_capacity_union(x, mn, mxi) : ((mxi - mn + 1) <= int(x.capacity()) && fits_capacity(x, mn, mxi));
+    if (own != code)
+      stats().count("view: own block window and the reported capacity window disagree");
+    flag(own ? CF_VIEW1_WITHIN : CF_VIEW1_BEYOND);
+    return own;
+  }
   static bool fits_capacity(const Vec& x, int mn, int mxi)
   { // conservative: the new range lies inside the currently allocated index window
     if (x.size() == 0)
@@ -1066,6 +1148,7 @@ struct Interp1
     for (int i = 0; i < len; ++i)
       m[0].v[std::size_t(i)] = mk<T>(i + 1);
     may_alias[0] = view_attached[0] = true;
+    flag(CF_VIEW1);
     return Result::pass();
   }
 
@@ -1722,6 +1805,12 @@ struct InterpN
   stir::shared_ptr<float[]> buf;
   std::size_t buf_len = 0;
   int viewer = -1;
+  // Domain audit (aliasing sentence, multi-dimensional arrays): whether the viewer still had to alias the block was taken from
+  // the code (is_contiguous() and where begin_all() pointed), so an array that silently left the shared block was accepted.
+  // Own statement: Array(range, shared_ptr) views the block in row-major order; as long as no operation that may re-allocate
+  // was applied to the viewing object (resize / grow / growing arithmetic / row operations / assignment TO it / re-construction)
+  // element k of the full iteration IS block element k: same address, both directions.  Moves and swaps hand the view on.
+  bool view_hold = false;
   InterpN()
   {
     for (int s = 0; s < NS; ++s)
@@ -1811,6 +1900,29 @@ struct InterpN
             VF_CHECK(x.find_max() == *std::max_element(flat.begin(), flat.end()), after, " find_max");
             VF_CHECK(x.find_min() == *std::min_element(flat.begin(), flat.end()), after, " find_min");
           }
+      }
+    if (viewer == s && buf && view_hold)
+      {
+        VF_CHECK(flat.size() == buf_len, after, " slot ", s, " views a block of ", buf_len, " elements and was not resized, but has ", flat.size());
+        std::size_t k = 0;
+        for (auto it = x.begin_all(); it != x.end_all(); ++it, ++k)
+          VF_CHECK(&*it == buf.get() + k, after, " slot ", s, ": element ", k, " of the viewing array is no longer element ", k,
+                   " of the shared block although the array was not resized beyond it");
+        // block -> array (array -> block is the address identity above plus the value comparison with the model)
+        const std::size_t kk = flat.size() / 2;
+        const float keep = buf[std::ptrdiff_t(kk)];
+        buf[std::ptrdiff_t(kk)] = -4321.5F;
+        std::size_t j = 0;
+        bool seen = false;
+        for (auto it = x.begin_all_const(); it != x.end_all_const(); ++it, ++j)
+          if (j == kk)
+            seen = same(*it, -4321.5F);
+        buf[std::ptrdiff_t(kk)] = keep;
+        VF_CHECK(seen, after, " slot ", s, ": a write to the shared block is not visible in the viewing array");
+        bool rows_nonempty = true;
+        check_rows_nonempty(mm, rows_nonempty);
+        if (rows_nonempty)
+          VF_CHECK(x.is_contiguous(), after, " slot ", s, ": viewing array no longer contiguous although it was not resized");
       }
     if (viewer == s && buf)
       {
@@ -2050,6 +2162,43 @@ struct InterpN
     MN& ms = m[s];
     const std::string after = cat("op#", idx, " code ", code);
     SplitMix g(uint64_t(c) * 1000003ULL + uint64_t(d));
+    // does the view (if any) have to survive this operation?  (own statement, see view_hold)
+    if (viewer >= 0 && view_hold)
+      {
+        bool keeps = true;
+        switch (code)
+          {
+          case 3: // assignment to the viewer (also x = x: copy-and-swap) may re-allocate
+            keeps = viewer != s;
+            break;
+          case 5:
+          case 6:
+          case 22:
+            keeps = viewer != s;
+            break;
+          case 14: // grows to the hull when the ranges differ
+            keeps = viewer != s || model_same_range(ms, m[t]);
+            break;
+          case 2:
+          case 4:
+          case 21:
+            if (s != t && (viewer == s || viewer == t))
+              flag(CF_VIEWN_MOVED);
+            break;
+          default:
+            break;
+          }
+        if (!keeps)
+          view_hold = false;
+      }
+    if (code == 14)
+      {
+        if (s == t)
+          flag(CF_SELF);
+        flag_ranges(ms.n() == 0, ms.min, ms.max(), m[t].n() == 0, m[t].min, m[t].max());
+      }
+    if (code == 3 && s == t)
+      flag(CF_SELF);
     switch (code)
       {
       case 0: { // construct from range (regular or irregular)
@@ -2322,6 +2471,8 @@ struct InterpN
         model_for_each(tmp, [&k](float& e) { e = float(++k); });
         m[s] = tmp;
         viewer = s;
+        view_hold = true;
+        flag(CF_VIEWN);
         // writes to the buffer are visible in the array at once
         buf[0] = 99.F;
         {
@@ -2475,6 +2626,17 @@ struct InterpN
       default:
         break;
       }
+    if (viewer < 0)
+      view_hold = false;
+    if (view_hold && code != 18)
+      flag(CF_VIEWN_HELD);
+    for (int q = 0; q < NS && !(g_case_flag[CF_ND_IRREGULAR] && g_case_flag[CF_ND_EMPTY_ROW]); ++q)
+      if (m[q].n() > 0 && !model_regular(m[q]))
+        {
+          flag(CF_ND_IRREGULAR);
+          if (model_has_empty_row(m[q]))
+            flag(CF_ND_EMPTY_ROW);
+        }
     return compare_all(after);
   }
 
@@ -2799,6 +2961,16 @@ check(const json& c)
   const json& ops = c["ops"];
   Result r;
   g_excluded_in_case.clear();
+  std::fill(g_case_flag, g_case_flag + CF_N, false);
+  struct FlagReport
+  {
+    ~FlagReport()
+    {
+      for (int f = 0; f < CF_N; ++f)
+        if (g_case_flag[f])
+          stats().cls(case_flag_name[f]);
+    }
+  } flag_report;
   {
     static const char* kind_name[7] = { "kind 0 VectorWithOffset<int>", "kind 1 Array<1,float>", "kind 2 Array<2,float>", "kind 3 Array<3,float>",
                                         "kind 4 VectorWithOffset<counting type>", "kind 5 Array<4,float>", "kind 6 NumericVectorWithOffset<float,float>" };
@@ -2930,7 +3102,150 @@ const std::vector<Conc> conc = {
   { 24, 0, 0, 9, 0 }, // slot0.xapyb(x, a, y, b): b one shorter at the upper end (numeric kinds)
   { 24, 0, 0, 0, 3 }, // slot0.sapyb(a, y, b), matching ranges
   { 23, 0, 1, 0, 0 }, // slot0 + slot1
+  { 15, 0, 1, 0, 0 }, // slot0 == slot1 (domain audit: equality between two live objects was in no enumerated history)
 };
+
+// Domain audit: the bounded-exhaustive part covered the 1-D kinds only, although the quantifier asks for all short histories on
+// 1-4 dimensional arrays.  Second alphabet for Array<2,float>: the multi-dimensional interpreter draws its ranges from a generator
+// seeded with (c,d), so the concrete ranges are found by scanning the (c,d) values the random generator can produce (0..62) for the
+// first one of each wanted shape (deterministic; the shapes are listed once in the run's log when VERIF_DEBUG is set).
+static bool
+rn_regular(const RN& r)
+{
+  for (auto& k : r.sub)
+    if (k.max - k.min != r.sub[0].max - r.sub[0].min || (k.max >= k.min && k.min != r.sub[0].min))
+      return false;
+  return true;
+}
+static std::size_t
+rn_size(const RN& r)
+{
+  std::size_t n = 0;
+  for (auto& k : r.sub)
+    n += k.max >= k.min ? std::size_t(k.max - k.min + 1) : 0;
+  return n;
+}
+static bool
+rn_has_empty_row(const RN& r)
+{
+  for (auto& k : r.sub)
+    if (k.max < k.min)
+      return true;
+  return false;
+}
+static const std::vector<Conc>&
+conc2()
+{
+  static const std::vector<Conc> v = [] {
+    auto range_of = [](long c, long d) {
+      SplitMix g(uint64_t(c) * 1000003ULL + uint64_t(d));
+      return gen_range(g, 2, (d & 1) != 0);
+    };
+    auto find = [&](const std::function<bool(const RN&)>& pred, long& c, long& d) {
+      for (c = 0; c <= 62; ++c)
+        for (d = 0; d <= 62; ++d)
+          if (pred(range_of(c, d)))
+            return true;
+      c = d = 0;
+      return false;
+    };
+    long ca, da, cb, db, cc, dc, ce, de, cz, dz, cs, ds;
+    // A: regular, at least 2 rows of at least 2 elements
+    find([](const RN& r) { return r.max - r.min >= 1 && rn_regular(r) && r.sub[0].max - r.sub[0].min >= 1; }, ca, da);
+    const RN A = range_of(ca, da);
+    // B: regular, not empty, shares exactly ONE outer index with A and has another inner range
+    find([&](const RN& r) {
+      const int lo = std::max(r.min, A.min), hi = std::min(r.max, A.max);
+      return r.max >= r.min && rn_regular(r) && rn_size(r) > 0 && lo == hi && r.max - r.min >= 1 && !rn_equal(r.sub[0], A.sub[0]);
+    }, cb, db);
+    // C: irregular, no zero-length row;  E: irregular with a zero-length row, not empty;  Z: empty;  S: one element
+    find([](const RN& r) { return r.max - r.min >= 1 && !rn_regular(r) && !rn_has_empty_row(r); }, cc, dc);
+    find([](const RN& r) { return r.max - r.min >= 1 && !rn_regular(r) && rn_has_empty_row(r) && rn_size(r) > 0; }, ce, de);
+    find([](const RN& r) { return r.max < r.min; }, cz, dz);
+    find([](const RN& r) { return r.max == r.min && rn_size(r) == 1; }, cs, ds);
+    if (dbg())
+      std::cerr << "C11 2-D alphabet: A " << show_range(A) << " B " << show_range(range_of(cb, db)) << " C " << show_range(range_of(cc, dc)) << " E "
+                << show_range(range_of(ce, de)) << " Z " << show_range(range_of(cz, dz)) << " S " << show_range(range_of(cs, ds)) << "\n";
+    return std::vector<Conc>{
+      { 0, 0, 0, ca, da },  // construct slot0 with A
+      { 0, 1, 0, ca, da },  // construct slot1 with A
+      { 0, 1, 0, cb, db },  // construct slot1 with B
+      { 0, 1, 0, cc, dc },  // construct slot1 with C (irregular)
+      { 0, 0, 0, ce, de },  // construct slot0 with E (irregular, a zero-length row)
+      { 5, 0, 0, cb, db },  // resize slot0 to B (one shared row when it was A)
+      { 5, 0, 0, cc, dc },  // resize slot0 to C
+      { 5, 0, 0, cz, dz },  // resize slot0 to empty
+      { 5, 0, 0, cs, ds },  // resize slot0 to one element
+      { 6, 0, 0, ca, da },  // grow slot0 to A
+      { 10, 0, 0, 7, 0 },   // fill slot0
+      { 10, 1, 0, 3, 0 },   // fill slot1
+      { 11, 0, 0, 1, 3 },   // write one element of slot0
+      { 3, 0, 1, 0, 0 },    // slot0 = slot1
+      { 3, 1, 0, 0, 0 },    // slot1 = slot0
+      { 2, 1, 0, 0, 0 },    // move construct slot1 from slot0
+      { 4, 0, 1, 0, 0 },    // slot0 = move(slot1)
+      { 21, 0, 1, 0, 0 },   // swap
+      { 14, 0, 1, 0, 0 },   // slot0 += slot1
+      { 14, 1, 0, 2, 0 },   // slot1 *= slot0
+      { 14, 0, 0, 1, 0 },   // slot0 -= slot0
+      { 12, 0, 0, 3, 4 },   // at()
+      { 18, 0, 0, ca, da }, // slot0 = view on a shared block, range A
+      { 18, 1, 0, cc, dc }, // slot1 = view on a shared block, range C
+      { 19, 0, 0, 0, 0 },   // full data pointer of slot0
+      { 22, 0, 0, 1, 1 },   // row operation on slot0
+      { 22, 0, 0, 2, 5 },   // another row operation on slot0
+      { 25, 0, 0, 1, 1 },   // fill_from
+      { 25, 0, 0, 0, 2 },   // write through the full iterator
+      { 23, 0, 1, 0, 0 },   // slot0 + slot1
+      { 24, 0, 1, 1, 0 },   // xapyb with array coefficients
+      { 15, 0, 1, 0, 0 },   // slot0 == slot1
+    };
+  }();
+  return v;
+}
+
+static bool
+enumerate2(uint64_t idx, int tier, json& c)
+{
+  const std::vector<Conc>& al = conc2();
+  const uint64_t K = al.size();
+  // 32 + 32^2 + 32^3 = 33 824 histories; the sanitizer flavour (about 10x slower) enumerates length <= 2 in the quick tier
+  int L = 3;
+#if defined(__has_feature)
+#  if __has_feature(address_sanitizer)
+  if (tier == 0)
+    L = 2;
+#  endif
+#endif
+  uint64_t total = 0, pw = 1;
+  for (int l = 1; l <= L; ++l)
+    {
+      pw *= K;
+      total += pw;
+    }
+  if (idx >= total)
+    return false;
+  uint64_t r = idx;
+  int len = 1;
+  pw = K;
+  while (r >= pw)
+    {
+      r -= pw;
+      pw *= K;
+      ++len;
+    }
+  json ops = json::array();
+  for (int i = 0; i < len; ++i)
+    {
+      const Conc& o = al[r % K];
+      r /= K;
+      ops.push_back({ o.code, o.a, o.b, o.c, o.d });
+    }
+  c = json::object();
+  c["kind"] = 2;
+  c["ops"] = ops;
+  return true;
+}
 
 bool
 enumerate(uint64_t idx, int tier, json& c)
@@ -2947,7 +3262,7 @@ enumerate(uint64_t idx, int tier, json& c)
       per_kind += pw;
     }
   if (idx >= per_kind * 3)
-    return false;
+    return enumerate2(idx - per_kind * 3, tier, c);
   const int kind = kinds[idx / per_kind];
   uint64_t r = idx % per_kind;
   int len = 1;
